@@ -1215,21 +1215,22 @@ fn main() {
     // bookmark, two synced bookmarks, a conflicted bookmark), so that move/move, delete/move and
     // "conflict, then more changes" situations are inside the quick bound.  Every history of at
     // most `depth` actions after each start is executed.
-    let plan: Vec<(Vec<&str>, usize)> = if ctx.quick() {
+    // (start prefix, depth, restrict the edits to bookmark x)
+    let plan: Vec<(Vec<&str>, usize, bool)> = if ctx.quick() {
         vec![
-            (vec![], 3),
-            (vec!["jj:x=c1", "export"], 3),
-            (vec!["jj:x=c1", "jj:y=c3", "export"], 2),
-            (vec!["jj:x=c2", "git:x=c3", "import"], 2),
+            (vec![], 3, false),
+            (vec!["jj:x=c1", "export"], 3, true),
+            (vec!["jj:x=c1", "jj:y=c3", "export"], 2, false),
+            (vec!["jj:x=c2", "git:x=c3", "import"], 2, false),
         ]
     } else {
-        vec![(vec![], 6)]
+        vec![(vec![], 6, false)]
     };
     let wall_budget = ctx.pick(45.0, 840.0);
     let mut st = bfs::BfsStats::default();
     let mut per_search: Vec<Value> = vec![];
     let mut all_complete = true;
-    for (prefix, depth) in &plan {
+    for (prefix, depth, only_x) in &plan {
         let prefix_acts: Vec<Act> = prefix.iter().map(|s| Act::parse(s).unwrap()).collect();
         let cfg = bfs::BfsConfig {
             max_depth: *depth,
@@ -1245,7 +1246,12 @@ fn main() {
                 for (sig, msg) in &o.violations {
                     ctx.violation(sig, msg.clone(), history_json(&full));
                 }
-                Some(bfs::StepResult { key: o.key, actions: o.actions })
+                let actions = o
+                    .actions
+                    .into_iter()
+                    .filter(|a| !*only_x || !matches!(a, Act::JjSet(1, _) | Act::GitSet(1, _)))
+                    .collect();
+                Some(bfs::StepResult { key: o.key, actions })
             },
             |a| a.label(),
         );
@@ -1254,6 +1260,7 @@ fn main() {
         per_search.push(json!({
             "start_after": prefix,
             "depth": depth,
+            "edits_restricted_to_bookmark_x": only_x,
             "states": one.states,
             "transitions": one.transitions,
             "max_depth_completed": one.max_depth_completed,
@@ -1279,7 +1286,7 @@ fn main() {
     st.states = stats.probed.lock().unwrap().len() as u64;
     let plan_text = plan
         .iter()
-        .map(|(p, d)| format!("<= {d} actions after {p:?}"))
+        .map(|(p, d, x)| format!("<= {d} actions{} after {p:?}", if *x { " (edits of bookmark x only)" } else { "" }))
         .collect::<Vec<_>>()
         .join("; ");
 
